@@ -52,6 +52,13 @@ def make_sub(rng, g, name, modeset, template, child=None):
     if template and not G.params:
         stmts.append("Tgate({%s}) | %d" % (G.ident(), ms[0]))
         G.params.append(stmts[-1].split("{")[1].split("}")[0])
+    if template and rng.random() < 0.4:
+        # two parameters inside one argument
+        pa = G.params[0]
+        pb = G.params[1] if len(G.params) > 1 else G.ident()
+        if pb not in G.params:
+            G.params.append(pb)
+        stmts.append("Dgate({%s} - 2*{%s}, 0.1) | %d" % (pa, pb, ms[0]))
     if child:
         cname, _, cn, cparams = child
         if cn <= len(ms):
@@ -158,6 +165,13 @@ def build(rng, g, symbolic_args=False):
                     # the caller's own parameters, named like the callee's (possibly crossed over)
                     vals_ = ["{%s}" % q for q in params] + ["{zz}", "0.5"]
                     tags.add("symbolic-include-argument")
+                    if len(params) >= 2 and rng.random() < 0.6:
+                        # crossed over: one parameter receives the caller's parameter named like another one, which receives a number
+                        a_, b_ = rng.sample(params, 2)
+                        kw = "(" + ", ".join("%s=%s" % (p, "{%s}" % b_ if p == a_ else (rng.choice(["0.5", "2", "-0.7"]) if p == b_ else rng.choice(vals_))) for p in params) + ")"
+                        body.append("%s%s | %s" % (name, kw, rng.choice(["[%s]", "(%s)", "%s"]) % ", ".join(str(m) for m in modes)))
+                        calls.append((name, modes))
+                        continue
                 kw = "(" + ", ".join("%s=%s" % (p, rng.choice(vals_)) for p in params) + ")"
             body.append("%s%s | %s" % (name, kw, rng.choice(["[%s]", "(%s)", "%s"]) % ", ".join(str(m) for m in modes)))
             calls.append((name, modes))
